@@ -5,6 +5,7 @@
 -/
 import Gzx.Util
 import Gzx.Model.QREncMirror
+import Gzx.Proofs.QREncFuncDefs
 namespace Gzx.Driver.C07QREnc
 open Gzx Gzx.QRRef Gzx.QREnc
 
@@ -243,6 +244,10 @@ def handle : List String → String
       showR (fun (r : VersionInfo) => toString r.number) (QRVersionChoice.recommendVersion tables ec m h d)
     | _, _, _, _ => "bad-op"
   | "enc" :: args => handleEnc args
+  | "funcok" :: args =>          -- the per-version hypothesis `FuncOK v` of the C07Mirror theorems, evaluated by compiled code
+    match argNat args "v" with
+    | some v => if decide (FuncOK v) then "1" else "0"
+    | none => "bad-op"
   | _ => "bad-op"
 
 end Gzx.Driver.C07QREnc
